@@ -14,7 +14,8 @@
    shared_mutex itself are outside it and are the ThreadSanitizer harness's
    business.  Only theorem statements live here. *)
 From Coq Require Import NArith List Bool Arith.
-From VV Require Import Cache.CacheDefs Conc.ProtoTypes Conc.ConcDefs Conc.ConcProofs Gen.CacheProto Conc.ConcGenDefs Conc.ConcGen.
+From VV Require Import Cache.CacheDefs Cache.CacheGenDefs2 Conc.ProtoTypes Conc.ConcDefs Conc.ConcProofs Gen.CacheProto
+  Conc.ConcGenDefs Conc.ConcLin Conc.ConcGen.
 Import ListNotations.
 
 (* what the action skeleton assumes of the source holds of the regenerated
@@ -63,6 +64,39 @@ Theorem C15_slot_consistent_under_lock : forall bits opss sched t th j,
 Proof. exact gen_slot_consistent. Qed.
 Print Assumptions C15_slot_consistent_under_lock.
 
+(* LINEARISATION: the concurrent cache behaves like the SEQUENTIAL cache of
+   C04 executing the same operations one at a time in the order of their lock
+   acquisitions.  [irun] replays the schedule with a ghost log of successful
+   lock acquisitions (thread, operation), newest first.  For every number of
+   threads, all operations (find, insert, clear, clear(key), save, load) and
+   every schedule: the logged operations are, per thread, a prefix of its
+   program; whenever nobody holds the exclusive lock the shared memory IS
+   [seq_table] -- the logged operations applied in order to a fresh table with
+   insert / clear / clear_one of Cache/CacheDefs.v --; and every thread's
+   completed finds returned exactly what the sequential [find] returns at that
+   point of the order ([seq_results]); a finished thread has all of them. *)
+Theorem C15_linearisation : forall bits opss sched,
+  let s := fst (irun opss sched (init (gen_progs bits opss), [])) in
+  let l := snd (irun opss sched (init (gen_progs bits opss), [])) in
+  s = run sched (init (gen_progs bits opss)) /\
+  (forall t, ops_of l t = firstn (count l t) (nth t opss [])) /\
+  (writer s = None -> agree (gseal s) (mem s) (seq_table bits l)) /\
+  (forall t th, nth_error (ths s) t = Some th ->
+     results th = seq_results bits l t \/ exists kr, seq_results bits l t = kr :: results th) /\
+  (forall t th, nth_error (ths s) t = Some th -> acts th = [] -> results th = seq_results bits l t).
+Proof. exact gen_linearisation. Qed.
+Print Assumptions C15_linearisation.
+
+(* the sequential cache of the linearisation is the regenerated table model
+   of C04 (now_insert / now_clear / now_clear_one / now_find), about which
+   C04 proves soundness of find and transparency of the proxy *)
+Theorem C15_sequential_cache_is_C04 : forall tb k v,
+  seq_apply tb (OInsert k v) = now_insert tb k v /\ seq_apply tb OClear = now_clear tb /\
+  seq_apply tb (OClearOne k) = now_clear_one tb k /\ find tb k = now_find tb k /\
+  seq_table 0 [] = now_fresh 0.
+Proof. exact seq_is_now. Qed.
+Print Assumptions C15_sequential_cache_is_C04.
+
 (* the same absence of races for ANY programs that pass the static lock
    discipline check, not only sequences of cache methods *)
 Theorem C15_no_data_race_any_well_locked_program : forall progs sched t1 t2,
@@ -87,6 +121,13 @@ Example C15_nonvacuous :
   (* the writer really was blocked while the reader held the shared lock *)
   writer (run (firstn 11 sched) (init (gen_progs 2 opss))) = None /\
   readers (run (firstn 11 sched) (init (gen_progs 2 opss))) = [0%nat] /\
+  (* the ghost log: acquisitions in order (oldest first), and the sequential results of thread 0 *)
+  rev (snd (irun opss sched (init (gen_progs 2 opss), []))) =
+    [(1%nat, OInsert (1, 5) [10; 11]); (0%nat, OFind (1, 5)); (1%nat, OInsert (5, 5) [20; 21; 22; 23]);
+     (0%nat, OFind (5, 5)); (2%nat, OClear); (2%nat, OClearOne (1, 5)); (2%nat, OSave);
+     (2%nat, OLoad 7 [((9, 9), [1])])] /\
+  seq_results 2 (snd (irun opss sched (init (gen_progs 2 opss), []))) 0%nat =
+    [((5, 5), [20; 21; 22; 23]); ((1, 5), [10; 11])] /\
   (* in the middle of the second insert slot 1 holds the NEW key with the OLD value *)
   (let m := mem (run (firstn 19 sched) (init (gen_progs 2 opss))) 1 in (skey m, sfit m)) = ((5, 5), [10; 11]).
 Proof. vm_compute. repeat split. Qed.
